@@ -488,6 +488,9 @@ func checkC02(c *km.Ctx) {
 	checkNormaliser(c, s)
 	if ca := c.MustFunc("R-C02-5", "cmd/keymasterd", "(*RuntimeState).checkAuth"); ca != nil {
 		checkAuthBits(c, s, ca, "R-C02-5")
+		// who counts as the authenticated user of a client certificate: not the holder of a role certificate (the role
+		// CA shares the user CA's key) - the CA-separation obligations of C06, as this property's own
+		checkKeymasterSigned(c, s, "R-C02-5")
 	}
 	_ = strings.Contains
 
